@@ -6,7 +6,7 @@ LEVEL = "other"
 EXPLANATION = "Kani/CBMC bounded verdicts over the real request validators with symbolic floats/ints (all 2^32 bit patterns per lane); see obligation_results."
 TRUSTED_BASE = ["Kani 0.68 MIR->goto translation", "CBMC 6.11 + CaDiCaL", "stubs: std::fmt::format -> empty String, RandomState::new -> fixed keys"]
 NOT_COVERED = ["liveness of the async server, panic containment", "oversized batches through real streams", "post-restart census",
-               "embedding lengths 4..4095 (lengths 0..3 symbolic, 4096/4097 concrete)"]
+               "embedding lengths 4..4095 (lengths 0..3 symbolic, 4096/4097 concrete)", "filter trees deeper than 3 levels or with more than 2 children per node"]
 ASSUMPTIONS = ["embedding length <= 3 (symbolic) or in {4096,4097} (concrete)"]
 F = [("api_validation.rs", "validate_search_request"), ("api_validation.rs", "validate_insert_request")]
 HARNESSES = [
@@ -19,6 +19,12 @@ HARNESSES = [
        functions=F, bounds="embedding len 0..3 symbolic f32, doc_id any u64"),
     KH("O15.2/dim", "c15_o2_insert_dim_limit", "validate_insert_request: length limit exactly 4096", functions=F,
        bounds="len in {4096,4097}, concrete finite values, unwind 4100", tier="thorough", timeout=900),
+] + [
+    KH("O15.3/" + k, "c15_o3_oversampling_" + k, "calculate_oversampling_factor: no panic (division by zero / overflow) and result in [1,50] for %s trees" % k, src="adaptive_oversampling.rs",
+       functions=[("adaptive_oversampling.rs", "estimate_selectivity"), ("adaptive_oversampling.rs", "calculate_oversampling_factor")],
+       bounds="filter trees of shape %s, depth <= 2 (3 for not_or/and_or), 0..2 children each, leaves in {untyped, Exact, Range, In with 0/1/3/6 values}" % k,
+       tier=("quick" if k in ("or", "and", "not_or") else "thorough"), timeout=600)
+    for k in ("leaf", "and", "or", "not_none", "not_leaf", "not_or", "and_or")
 ]
 
 
@@ -36,4 +42,4 @@ MOS = [
 
 
 def run(tier, seed, notes):
-    return run_mir_obligations("C15", tier, MOS, notes) + run_kani_group("C15", tier, "lib", {"api_validation.rs": "api_validation_proofs.rs"}, HARNESSES, jobs=6, notes=notes)
+    return run_mir_obligations("C15", tier, MOS, notes) + run_kani_group("C15", tier, "lib", {"api_validation.rs": "api_validation_proofs.rs", "adaptive_oversampling.rs": "adaptive_oversampling_proofs.rs"}, HARNESSES, jobs=6, notes=notes)
